@@ -181,6 +181,98 @@ theorem C16_fail_no_release_enc0 (accept : Bool) (ctx : AadCtx) (prot iv : Bytes
       | none => rfl
       | some k => simpa using h k aad ct h3 h2 h1
 
+/-- **A recorded failure is never withdrawn.** Once one target of a BCB failed, the block fails
+    whatever the later targets do (all of them may decrypt): `verify_bcb` cannot return "no failure". -/
+theorem C16_failure_sticks (accept : Bool) (prim : Primary) (sb : SecBlock) :
+    ∀ (ts : List Nat) (blocks : List Canonical) (ix : Nat),
+      (verifyBcbLoop P store crcFn accept prim sb ts blocks ix true).1 ≠ .ok
+  | [], blocks, ix => by simp [verifyBcbLoop]
+  | t :: ts, blocks, ix => by
+    unfold verifyBcbLoop
+    split
+    · simp
+    · split
+      · simp
+      · exact C16_failure_sticks accept prim sb ts _ (ix + 1)
+      · exact C16_failure_sticks accept prim sb ts _ (ix + 1)
+
+/-- What `verify_bcb` requires of target number `t` at index `ix` (blocks as received). -/
+def BcbTargetOk (b : Bundle) (sb : SecBlock) (ix t : Nat) : Prop :=
+  ∃ tgt id m, findBlock b.blocks t = some tgt ∧ sb.results[ix]? = some [(id, m)] ∧
+    (bcbPlain P store crcFn (ctxFor b.primary b.blocks sb tgt) (m.attach (tgt.btsd.getD []))).isSome = true
+
+private theorem verifyBcbLoop_ok (b : Bundle) (sb : SecBlock) :
+    ∀ (ts : List Nat) (ix : Nat) (fail : Bool),
+      (verifyBcbLoop P store crcFn false b.primary sb ts b.blocks ix fail).1 = .ok ↔
+        fail = false ∧ ∀ j, (hj : j < ts.length) → BcbTargetOk P store crcFn b sb (ix + j) ts[j]
+  | [], ix, fail => by
+    cases fail <;> simp [verifyBcbLoop]
+  | t :: ts, ix, fail => by
+    have ih := verifyBcbLoop_ok b sb ts (ix + 1)
+    have shift : ∀ (Q : Nat → Nat → Prop),
+        (∀ j, (hj : j < (t :: ts).length) → Q (ix + j) (t :: ts)[j]) ↔
+          Q ix t ∧ ∀ j, (hj : j < ts.length) → Q (ix + 1 + j) ts[j] := by
+      intro Q
+      constructor
+      · intro h
+        refine ⟨h 0 (by simp), fun j hj => ?_⟩
+        have e : ix + (j + 1) = ix + 1 + j := by omega
+        have := h (j + 1) (by simp; omega)
+        rw [e] at this
+        exact this
+      · intro h j hj
+        cases j with
+        | zero => exact h.1
+        | succ j =>
+          have e : ix + (j + 1) = ix + 1 + j := by omega
+          have := h.2 j (by simpa using hj)
+          rw [e]
+          exact this
+    rw [shift (fun i u => BcbTargetOk P store crcFn b sb i u)]
+    unfold verifyBcbLoop
+    cases hf : findBlock b.blocks t with
+    | none => simp [BcbTargetOk, hf]
+    | some tgt =>
+      simp only
+      cases hr : sb.results[ix]? with
+      | none => simp [BcbTargetOk, hr]
+      | some rl =>
+        match rl, hr with
+        | [], hr => simp [ih, BcbTargetOk, hr]
+        | [(id, m)], hr =>
+          simp only [Bool.false_eq_true, ↓reduceIte, ih, Bool.or_eq_false_iff, Bool.not_eq_eq_eq_not, Bool.not_false]
+          have hv : (verifyBcbTarget P store crcFn false (ctxFor b.primary b.blocks sb tgt)
+              (m.attach (tgt.btsd.getD []))).1 = true ↔
+              (bcbPlain P store crcFn (ctxFor b.primary b.blocks sb tgt) (m.attach (tgt.btsd.getD []))).isSome = true := by
+            unfold verifyBcbTarget
+            cases bcbPlain P store crcFn (ctxFor b.primary b.blocks sb tgt) (m.attach (tgt.btsd.getD [])) <;> simp
+          rw [hv]
+          simp only [BcbTargetOk, hf, hr, Option.some.injEq, List.cons.injEq, Prod.mk.injEq, and_true]
+          constructor
+          · rintro ⟨⟨h1, h2⟩, h3⟩
+            exact ⟨h1, ⟨tgt, id, m, rfl, ⟨rfl, rfl⟩, h2⟩, h3⟩
+          · rintro ⟨h1, ⟨tgt', id', m', e1, ⟨e2, e3⟩, h2⟩, h3⟩
+            subst e1 e2 e3
+            exact ⟨⟨h1, h2⟩, h3⟩
+        | _ :: _ :: _, hr => simp [ih, BcbTargetOk, hr]
+
+/-- **Whole block (verifier role).** Without acceptance `CoseContext.verify_bcb` returns "no failure"
+    exactly when the block has no duplicate parameter / result ids and *every* target – whatever its
+    position in the target list – exists, has exactly one result and decrypts. (With acceptance the
+    loop rewrites targets as it goes; `C16_failure_sticks` is the position-independent part then.) -/
+theorem C16_verify_iff (b : Bundle) (sb : SecBlock) :
+    (verifyBcb P store crcFn false b sb).1 = .ok ↔
+      checkSecblk sb = .ok ∧
+      ∀ j, (hj : j < sb.targets.length) → BcbTargetOk P store crcFn b sb j sb.targets[j] := by
+  unfold verifyBcb
+  cases hc : checkSecblk sb with
+  | failed n => simp
+  | raised => simp
+  | ok =>
+    simp only [true_and]
+    rw [verifyBcbLoop_ok]
+    simp
+
 /-- Without acceptance the target is never rewritten, whatever the outcome. -/
 theorem C16_no_accept_no_write (ctx : AadCtx) (m : Msg) :
     (verifyBcbTarget P store crcFn false ctx m).2 = ctx.tgt := by
@@ -231,6 +323,40 @@ example : ∃ m t, applyEnc0 C16ex.toyP C16ex.crc
     verifyBcbTarget C16ex.toyP C16ex.store C16ex.crc true { C16ex.ctx with tgt := t } (m.attach (t.btsd.getD [])) =
       (true, { C16ex.payload with btsd := some [] }) := by
   refine ⟨_, _, rfl, by decide +kernel⟩
+
+namespace C16ex
+def age : Canonical := { typeCode := 7, blockNum := 2, btsd := some [0x18, 0x2a] }
+def bundle2 : Bundle := ⟨{ crcType := 2, dest := .ipn [2, 5] }, [age, payload]⟩
+def bcbBlk : Canonical := { typeCode := 12, blockNum := 3, flags := 1 }
+/-- a BCB over blocks 1 and 2 built target by target with `applyEnc0` -/
+def twoTargets : Option (SecBlock × Bundle) :=
+  let ctx1 : AadCtx := ⟨.ipn [5, 0], [(0, 1), (-1, 1)], bundle2.primary, bundle2.blocks, bcbBlk, payload, []⟩
+  match applyEnc0 toyP crc ctx1 [0xa1, 1, 3] [7] [1, 1] [1, 2, 3, 4] with
+  | none => none
+  | some (m1, t1) =>
+    let blocks1 := replaceBlock bundle2.blocks t1
+    let ctx2 : AadCtx := ⟨.ipn [5, 0], [(0, 1), (-1, 1)], bundle2.primary, blocks1, bcbBlk, age, []⟩
+    match applyEnc0 toyP crc ctx2 [0xa1, 1, 3] [7] [2, 2] [1, 2, 3, 4] with
+    | none => none
+    | some (m2, t2) =>
+      some ({ blk := bcbBlk, ssrc := .ipn [5, 0], targets := [1, 2], paramIds := [5], scope := [(0, 1), (-1, 1)],
+              addlProt := [], results := [[(16, m1)], [(16, m2)]] },
+            ⟨bundle2.primary, replaceBlock blocks1 t2⟩)
+def sb2 : SecBlock := (twoTargets.map Prod.fst).getD default
+def wire2 : Bundle := (twoTargets.map Prod.snd).getD default
+def corrupt (b : Bundle) (n : Nat) : Bundle :=
+  { b with blocks := b.blocks.map (fun c => if c.blockNum == n then { c with btsd := c.btsd.map (fun d => match d with | [] => [1] | x :: r => (x + 1) :: r) } else c) }
+end C16ex
+
+/-- two targets: intact ⇒ ok and both plaintexts restored on acceptance; the *first* target corrupted
+    while the second is intact ⇒ FAILED_SEC (and likewise the second) -/
+example : C16ex.twoTargets.isSome = true ∧
+    (verifyBcb C16ex.toyP C16ex.store C16ex.crc true C16ex.wire2 C16ex.sb2) = (.ok, C16ex.bundle2.blocks) ∧
+    (verifyBcb C16ex.toyP C16ex.store C16ex.crc false C16ex.wire2 C16ex.sb2).1 = .ok ∧
+    (verifyBcb C16ex.toyP C16ex.store C16ex.crc true (C16ex.corrupt C16ex.wire2 1) C16ex.sb2).1 = .failed 15 ∧
+    (verifyBcb C16ex.toyP C16ex.store C16ex.crc false (C16ex.corrupt C16ex.wire2 2) C16ex.sb2).1 = .failed 15 ∧
+    C16ex.wire2.blocks ≠ C16ex.bundle2.blocks := by
+  decide +kernel
 
 /-- a receiver that sees a different primary block (covered) computes a different tag: rejected, target untouched -/
 example : ∃ m t, applyEnc0 C16ex.toyP C16ex.crc C16ex.ctx [0xa1, 1, 3] [7] [9, 9, 9] [1, 2, 3, 4] = some (m, t) ∧
